@@ -15,6 +15,11 @@ pub use metadata::*;
 pub use predicate::{PredicateLayout, PredicateVer, PredicateWrapper};
 pub use statement::{StatementVer, StatementWrapper};
 
+#[cfg(in_toto_verif)]
+pub(crate) mod verif_dsse {
+    pub use super::envelope::DSSEVersion;
+}
+
 #[cfg(test)]
 mod test {
     use once_cell::sync::Lazy;
